@@ -138,6 +138,13 @@ func qualifier(pkg *types.Package, imports map[string]string) types.Qualifier {
 // or pointers to arrays are replayed automatically; property-specific templates
 // handle some method families. Returns the replay file path ("" when not replayable).
 func (P *Program) tryReplay(dir, prop string, r *FuncResult, o *Obligation, log *strings.Builder) string {
+	// failed relational obligations: no model is needed, a differential search on the two real functions
+	// looks for a concrete input on which they disagree
+	if t, ok := searchTemplates[prop]; ok && o.Result != nil {
+		if p := t(P, dir, r, o, log); p != "" {
+			return p
+		}
+	}
 	if o.Result == nil || (o.Result.Status != "sat" && !o.CandidateModel) {
 		return ""
 	}
@@ -512,5 +519,7 @@ func (P *Program) templateReplay(dir, prop string, r *FuncResult, o *Obligation,
 	}
 	return ""
 }
+
+var searchTemplates = map[string]func(P *Program, dir string, r *FuncResult, o *Obligation, log *strings.Builder) string{}
 
 var replayTemplates = map[string]func(P *Program, dir string, r *FuncResult, o *Obligation, vals map[string]string, log *strings.Builder) string{}
